@@ -152,7 +152,10 @@ def _check_op(chk, mod, fn, qual, spec, spec_txt, modes, extra_env=None, floor_r
                 val = FilterEval(penv, mod).ev(st.value)
                 want = spec(penv["self"], penv["other"])
             except Inconclusive as ex:
-                raise AnalysisError("%s: cannot interpret '%s' (%s)" % (W, short(st), ex))
+                # the decision tables (C05.dispatch) still run; reported as ANALYSIS-ERROR unless they prove a violation
+                chk.defer("%s: cannot interpret '%s' (%s)" % (W, short(st), ex))
+                total += 1
+                continue
             except ZeroDivisionError:
                 raise AnalysisError("%s: division by zero while normalising '%s'" % (W, short(st)))
             total += 1
@@ -166,6 +169,177 @@ def _check_op(chk, mod, fn, qual, spec, spec_txt, modes, extra_env=None, floor_r
                     "operator result would be None", node=fn)
     chk.require(total >= floor_returns, "%s: no return path could be interpreted" % W)
     return total
+
+
+def _dispatch(chk, repo, mod, W):
+    """which arm of the filter operators runs for which kind of operand (decision tables, sa/dtable.py)"""
+    from ..dtable import Facts, walk
+    chk.rule("C05.dispatch", "decision tables: ZFilter + - * / ** and the reflected operators, LinearFilter.__eq__, "
+                             "ZFilter.__call__, ParallelFilter.__call__, FilterList.callables and the numpoly / denpoly / "
+                             "poles / zeros guards are evaluated for every kind of operand (ZFilter, other LinearFilter, "
+                             "number; exponent sign x number of terms; empty list; linear / LTI or not): the statement "
+                             "that runs must be the documented one, whatever the order and spelling of the tests")
+    n_tab = 0
+    ZK = {"ZFilter", "LinearFilter"}
+
+    def last_of(w):
+        return unparse(w.last) if w.last is not None else ("<guard raises>" if w.end == "raise" else "<falls through>")
+
+    def sec_ops():
+        nonlocal n_tab
+        for name in ("__add__", "__mul__", "__truediv__"):
+            fn = repo.find(LF, "ZFilter." + name)
+            o_ = fn.args.args[1].arg
+            body = docstring_free(fn.body)
+            for kind in ("ZFilter", "ZFilter-same-den", "LinearFilter", "number"):
+                if kind.startswith("ZFilter"):
+                    same = kind.endswith("same-den")
+                    F = Facts(kinds={o_: ZK}, truths={"self.denpoly == %s.denpoly" % o_: same, "%s.denpoly == self.denpoly" % o_: same,
+                                                      "self.denpoly != %s.denpoly" % o_: not same}, types=ZK)
+                elif kind == "LinearFilter":
+                    F = Facts(kinds={o_: {"LinearFilter"}}, types=ZK)
+                else:
+                    F = Facts(kinds={o_: {"float"}}, types=ZK)
+                w = walk(body, F, "ZFilter." + name)
+                n_tab += 1
+                last = last_of(w)
+                if kind == "LinearFilter":
+                    ok = w.end == "raise" and "ValueError" in last
+                    exp = "ValueError (different domains)"
+                elif kind == "number":
+                    ok = w.end == "return" and ("%s.numpoly" % o_) not in last and ("%s.denpoly" % o_) not in last and o_ in last
+                    exp = "the number enters as a constant filter / factor"
+                else:
+                    ok = w.end == "return" and ("%s.numpoly" % o_) in last
+                    if name != "__mul__" or True:
+                        ok = ok and (("%s.denpoly" % o_) in last or (name == "__add__" and kind.endswith("same-den")))
+                    exp = "the rational-function formula on numpoly / denpoly of both operands"
+                chk.decide(ok, "C05.dispatch", W("ZFilter." + name), "h %s <%s> -> %s" % (name.strip("_"), kind, last[:80]),
+                           why="documented: " + exp, node=fn)
+
+    def sec_pow():
+        nonlocal n_tab
+        fn = repo.find(LF, "ZFilter.__pow__")
+        o_ = fn.args.args[1].arg
+        body = docstring_free(fn.body)
+        for ov, ok_kind in ((-2, "int"), (0, "int"), (3, "int"), (-1.0, "float"), (2, "Fraction")):
+            for la, lb in ((1, 1), (2, 1), (1, 2), (3, 3)):
+                F = Facts(kinds={o_: {ok_kind} | ({"Number"} if ok_kind != "Fraction" else set())}, values={o_: ov},
+                          lens={"self.numpoly": la, "self.denpoly": lb, "self.numerator": la, "self.denominator": lb,
+                                "self.numdict": la, "self.dendict": lb})
+                w = walk(body, F, "ZFilter.__pow__")
+                n_tab += 1
+                last = last_of(w)
+                if ov < 0 and (la >= 2 or lb >= 2) and ok_kind != "Fraction":
+                    ok = w.end == "return" and last.replace(" ", "") in (
+                        "returnZFilter(self.denpoly,self.numpoly)**(-%s)" % o_, "returnZFilter(self.denpoly,self.numpoly)**-%s" % o_)
+                    exp = "the reciprocal filter to the positive power"
+                elif ok_kind == "Fraction":
+                    ok = (w.end == "raise" and "ValueError" in last) or (ov < 0 and False)
+                    exp = "ValueError (only int / float exponents)"
+                else:
+                    ok = w.end == "return" and last == "return ZFilter(self.numpoly ** %s, self.denpoly ** %s)" % (o_, o_)
+                    exp = "numerator and denominator raised to the power"
+                chk.decide(ok, "C05.dispatch", W("ZFilter.__pow__"),
+                           "h ** %r (%d / %d terms) -> %s" % (ov if ok_kind != "Fraction" else "Fraction(%d)" % ov, la, lb, last[:70]),
+                           why="documented: " + exp, node=fn)
+
+    def sec_eq():
+        nonlocal n_tab
+        fn = repo.find(LF, "LinearFilter.__eq__")
+        o_ = fn.args.args[1].arg
+        for kind in ("LinearFilter", "number"):
+            F = Facts(kinds={o_: {"LinearFilter"} if kind == "LinearFilter" else {"float"}}, types=ZK)
+            w = walk(docstring_free(fn.body), F, "LinearFilter.__eq__")
+            n_tab += 1
+            last = last_of(w)
+            ok = (last == "return False") if kind == "number" else ("numpoly" in last and "denpoly" in last and w.end == "return")
+            chk.decide(ok, "C05.dispatch", W("LinearFilter.__eq__"), "h == <%s> -> %s" % (kind, last[:80]),
+                       why="filters compare by both polynomials; anything else is unequal", node=fn)
+        rb = repo.find(LF, "ZFilterMeta.__rbinary__")
+        du = [f for f in rb.body if isinstance(f, FuncTypes)]
+        chk.require(len(du) == 1, "ZFilterMeta.__rbinary__: closure not found")
+        o_ = du[0].args.args[1].arg
+        for kind in ("ZFilter", "number"):
+            F = Facts(kinds={o_: {"cls", "ZFilter"} if kind == "ZFilter" else {"float"}}, types={"cls", "ZFilter"})
+            w = walk(docstring_free(du[0].body), F, "ZFilterMeta.__rbinary__")
+            n_tab += 1
+            last = last_of(w)
+            ok = (w.end == "raise" and "ValueError" in last) if kind == "ZFilter" else \
+                last == "return op_func(cls([%s]), self)" % o_
+            chk.decide(ok, "C05.dispatch", W("ZFilterMeta.__rbinary__"), "<%s> op h -> %s" % (kind, last[:70]),
+                       why="c op h is ZFilter([c]) op h, operands in that order", node=du[0])
+
+    def sec_call():
+        nonlocal n_tab
+        fn = repo.find(LF, "ZFilter.__call__")
+        s_ = fn.args.args[1].arg
+        for kind in ("ZFilter", "signal"):
+            F = Facts(kinds={s_: ZK if kind == "ZFilter" else {"list", "Iterable"}}, types=ZK)
+            w = walk(docstring_free(fn.body), F, "ZFilter.__call__")
+            n_tab += 1
+            last = last_of(w)
+            allt = "\n".join(w.texts())
+            filters = "super(ZFilter, self).__call__(%s" % s_ in allt or "LinearFilter.__call__(self, %s" % s_ in allt
+            substitutes = ("%s ** " % s_) in allt
+            ok = (substitutes and not filters) if kind == "ZFilter" else (filters and not substitutes)
+            chk.decide(ok and w.end == "return", "C05.dispatch", W("ZFilter.__call__"), "h(<%s>) -> %s" % (kind, last[:70]),
+                       why="a ZFilter argument is substituted for z; anything else is filtered", node=fn)
+        fn = repo.find(LF, "ParallelFilter.__call__")
+        for ln in (0, 1, 3):
+            F = Facts(lens={"self": ln}, truths={"'zero' in kwargs": False})
+            w = walk(docstring_free(fn.body), F, "ParallelFilter.__call__")
+            n_tab += 1
+            last = last_of(w)
+            allt = "\n".join(w.texts())
+            if ln == 0:
+                F2 = Facts(lens={"self": 0}, truths={"'zero' in kwargs": True})
+                w2 = walk(docstring_free(fn.body), F2, "ParallelFilter.__call__")
+                zeros_ = {last, last_of(w2)}
+                ok = w.end == "return" and "callables" not in allt and "thub(" not in allt and (
+                    zeros_ == {"return Stream((0.0 for _ in args[0]))", "return Stream((kwargs['zero'] for _ in args[0]))"}
+                    or zeros_ == {"return Stream((kwargs.get('zero', 0.0) for _ in args[0]))"})
+                exp = "the empty sum: one zero per input sample"
+            else:
+                ok = w.end == "return" and "callables" in allt and "thub(args[0], len(self))" in allt \
+                    and "for _ in args[0]" not in allt
+                exp = "the sum of every branch applied to a hub of the input"
+            chk.decide(ok, "C05.dispatch", W("ParallelFilter.__call__"), "%d branch(es) -> %s" % (ln, last[:70]),
+                       why="documented: " + exp, node=fn)
+        fn = repo.find(LF, "FilterList.callables")
+        r = docstring_free(fn.body)[-1]
+        comps = [n for n in ast.walk(r) if isinstance(n, (ast.ListComp, ast.GeneratorExp))]
+        chk.require(len(comps) == 1 and isinstance(comps[0].elt, ast.IfExp), "FilterList.callables: conditional element not found")
+        v_ = unparse(comps[0].generators[0].target)
+        for cal in (True, False):
+            F = Facts(truths={"callable(%s)" % v_: cal})
+            from ..dtable import _Resolve
+            got = unparse(_Resolve(F, "callables").visit(ast.parse(unparse(comps[0].elt), mode="eval").body))
+            n_tab += 1
+            chk.decide(got == (v_ if cal else "LinearFilter(%s)" % v_), "C05.dispatch", W("FilterList.callables"),
+                       "%s item -> %s" % ("callable" if cal else "plain", got),
+                       why="callables are kept, anything else becomes a LinearFilter", node=r)
+
+    def sec_guards():
+        nonlocal n_tab
+        for q, atom_, what in (("ParallelFilter.numpoly", "self.is_linear()", "numpoly"), ("ParallelFilter.denpoly", "self.is_linear()", "denpoly"),
+                               ("CascadeFilter.poles", "self.is_lti()", "poles"), ("CascadeFilter.zeros", "self.is_lti()", "zeros"),
+                               ("ParallelFilter.poles", "self.is_lti()", "poles"), ("ParallelFilter.zeros", "self.is_lti()", "zeros")):
+            fn = repo.find(LF, q)
+            for val in (True, False):
+                F = Facts(truths={atom_: val})
+                w = walk(docstring_free(fn.body), F, q)
+                n_tab += 1
+                last = last_of(w)
+                ok = (w.end == "return" and what in last) if val else (w.end == "raise" and "AttributeError" in last)
+                chk.decide(ok, "C05.dispatch", W(q), "%s %s -> %s" % (atom_, val, last[:70]),
+                           why="defined only for linear / LTI lists; AttributeError otherwise", node=fn)
+    for sec in (sec_ops, sec_pow, sec_eq, sec_call, sec_guards):
+        try:
+            sec()
+        except AnalysisError as ex:
+            chk.defer(str(ex))
+    chk.floor("C05.dispatch", n_tab, 40, "scenarios walked")
 
 
 def run(chk, repo):
@@ -328,6 +502,7 @@ def run(chk, repo):
     # a Poly with several terms cannot be raised to a negative power (Poly.__pow__ silently returns the polynomial itself):
     # on every return path that raises numpoly / denpoly to `other`, the guards must exclude
     # "other < 0 and that polynomial has two or more terms"
+    _dispatch(chk, repo, mod, W)
     chk.rule("C05.pow-domain", "ZFilter.__pow__: a path computing self.numpoly ** other or self.denpoly ** other is reached "
                                "only when other >= 0 or that polynomial has fewer than two terms (decided over all truth "
                                "assignments of the guard atoms)")
@@ -638,6 +813,52 @@ def run(chk, repo):
     integ = [n for n in pair_asg if n is not frac[0]][0]
     chk.decide(unparse(integ.value) == "[(int(k), v)]", "C05.linearize", W("LinearFilter.linearize"),
                "integer delay kept: " + short(integ), why="integer delays must keep their coefficient", node=integ)
+    # which arm for which delay, which store for which tap (decision tables)
+    from ..dtable import Facts, walk
+    term_loops = [n for n in ast.walk(lin) if isinstance(n, ast.For) and any(a is frac[0] for a in ast.walk(n))
+                  and isinstance(n.target, ast.Tuple) and len(n.target.elts) == 2]
+    chk.require(term_loops, "LinearFilter.linearize: loop over the terms not found")
+    tl = term_loops[-1]
+    kname = unparse(tl.target.elts[0])
+    try:
+        for kk in ("int", "float-integer", "float-fraction"):
+            F = Facts(kinds={kname: {"int"} if kk == "int" else {"float"}},
+                      truths={"%s.is_integer()" % kname: kk == "float-integer", "%s == int(%s)" % (kname, kname): kk != "float-fraction",
+                              "int(%s) == %s" % (kname, kname): kk != "float-fraction"},
+                      raising=["%s.is_integer()" % kname] if kk == "int" and not hasattr(int, "is_integer") else [])
+            if kk == "int" and hasattr(int, "is_integer"):
+                F.truths["%s.is_integer()" % kname] = True       # int.is_integer() exists from Python 3.12 on
+            w = walk([st for st in tl.body if not isinstance(st, ast.For)], F, "LinearFilter.linearize")
+            pa = [st for st in w.ran if isinstance(st, ast.Assign) and unparse(st.targets[0]) == "pairs"]
+            n_el = len(pa[-1].value.elts) if pa and isinstance(pa[-1].value, ast.List) else -1
+            chk.decide(w.end == "fall" and n_el == (2 if kk == "float-fraction" else 1), "C05.linearize", W("LinearFilter.linearize"),
+                       "%s delay -> %s" % (kk, short(pa[-1]) if pa else w.end),
+                       why="integer delays (also as floats) are kept as one tap, fractional ones are split in two", node=tl)
+        inner = [st for st in tl.body if isinstance(st, ast.For)]
+        chk.require(len(inner) == 1, "LinearFilter.linearize: loop over the taps not found")
+        for present in (True, False):
+            F = Facts(truths={"key in new_poly": present, "key not in new_poly": not present})
+            w = walk(inner[0].body, F, "LinearFilter.linearize")
+            t = w.texts()
+            chk.decide(t == (["new_poly[key] += value"] if present else ["new_poly[key] = value"]), "C05.linearize",
+                       W("LinearFilter.linearize"), "tap on a delay %s -> %s" % ("already present" if present else "not yet present", "; ".join(t)),
+                       why="coinciding taps add up, new ones are stored", node=inner[0])
+    except AnalysisError as ex:
+        chk.defer(str(ex))
+    outer = [n for n in ast.walk(lin) if isinstance(n, ast.For) and tl in n.body]
+    if len(outer) == 1 and lin is repo.find(LF, "LinearFilter.linearize"):
+        ok_outer = unparse(outer[0].iter) in ("[self.numpoly, self.denpoly]", "(self.numpoly, self.denpoly)")
+        if ok_outer:
+            pre_ = [unparse(st) for st in outer[0].body if st is not tl]
+            ok_outer = pre_ in (["data.append({})", "new_poly = data[-1]"], ["new_poly = {}", "data.append(new_poly)"])
+        lret = [n for n in own_nodes(lin) if isinstance(n, ast.Return)]
+        ok_outer = ok_outer and len(lret) == 1 and unparse(lret[0].value) in ("self.__class__(*data)", "type(self)(*data)")
+        chk.decide(ok_outer, "C05.linearize", W("LinearFilter.linearize"),
+                   "numerator then denominator, each into a dict of its own, handed to the constructor in that order",
+                   why="the linearized polynomials must be built separately and keep their roles", node=lin)
+    else:
+        chk.note("C05.linearize", W("LinearFilter.linearize"), "the per-polynomial loop is not in the confirmed shape: "
+                 "its bookkeeping (fresh dict per polynomial, numerator first) is not decided")
     acc = [n for n in ast.walk(lin) if isinstance(n, ast.AugAssign)]
     chk.decide(len(acc) == 1 and isinstance(acc[0].op, ast.Add) and unparse(acc[0].target) == "new_poly[key]"
                and unparse(acc[0].value) == "value", "C05.linearize", W("LinearFilter.linearize"),
